@@ -226,7 +226,11 @@ func cmdCheck(args []string) int {
 		}
 		n := 0
 		for _, ob := range ex.obls {
-			if !hasTag(ob.Tags, *prop) {
+			// every proof obligation of a function in the property's cone supports the property's own obligations
+			// (invariants and callee preconditions are assumed after being asserted), whatever tag it carries;
+			// safety obligations belong to C17 only
+			supporting := *prop != "C17" && ob.Kind != "safe" && ob.Kind != "cover" && fi.Contract != nil
+			if !hasTag(ob.Tags, *prop) && !supporting {
 				continue
 			}
 			if *prop == "C17" && ob.Kind == "cover" && fi.Contract == nil {
